@@ -3,19 +3,15 @@ open FwdVerif FwdVerif.C16
 #print axioms c16_parse_valid
 #print axioms c16_parse_name_token
 #print axioms c16_parse_value_no_lf
-#print axioms c16_parse_value_cr_witness
-#print axioms c16_parse_value_legal_full_false
-#print axioms c16_parse_value_no_crlf_partial
+#print axioms c16_parse_value_legal
 #print axioms c16_print_exact_non_add
-#print axioms c16_roundtrip_partial
-#print axioms c16_roundtrip_witness
-#print axioms c16_roundtrip_full_false
+#print axioms c16_roundtrip
+#print axioms c16_parse_empty_iff
 #print axioms c16_apply_spec_partial
 #print axioms c16_add_appends
 #print axioms c16_add_others_untouched
-#print axioms c16_rename_preserves_fields_partial
-#print axioms c16_rename_canonical_witness
-#print axioms c16_rename_preserves_fields_full_false
+#print axioms c16_rename_preserves_fields
+#print axioms c16_rename_canonical_identity
 #print axioms c16_rule_after_rename_witness
 #print axioms c16_apply_spec_full_false
 #print axioms c16_dispatch
